@@ -29,7 +29,7 @@ def eps_dkw(n, delta=DELTA):
 
 def tier_config(prop, tier):
     if tier == "quick":
-        return {"runs": 4000, "chunk": 20, "cap_s": 300, "det_seeds": 6, "shrink_budget": 80}
+        return {"runs": 3000, "chunk": 20, "cap_s": 300, "det_seeds": 6, "shrink_budget": 80}
     return {"budget_s": 1200, "chunk": 8, "cap_s": 600, "det_seeds": 32, "shrink_budget": 120, "grace_s": 1500}
 
 
@@ -59,8 +59,15 @@ def _gen_params(S, fam, wide=True):
     return p
 
 
+FITTED_KINDS = ["dnvgl_hs_tz", "omae_hs_tz", "dnvgl_hs_u", "omae_v_hs"]
+
+
 def _gen_slot(S, tier):
-    kind = S.wpick([("dist", 4), ("model", 6)])
+    kind = S.wpick([("dist", 4), ("model", 6), ("fitted", 1.5)])
+    if kind == "fitted":
+        # a predefined model *fitted* to a seeded sub-sample (a fit leaves extra state on the
+        # conditional distributions: intervals, boundaries, per-interval estimates)
+        return {"kind": "fitted", "getter": S.pick(FITTED_KINDS), "letter": S.pick(["A", "B", "C"]), "n": S.pick([1500, 3000]), "dseed": S.sub("fd"), "refit": S.chance(0.3)}
     if kind == "dist":
         fam = S.pick(list(FAM))
         return {"kind": "dist", "family": fam, "params": _gen_params(S, fam)}
@@ -97,8 +104,13 @@ def generate(prop, seed, tier):
         n = S.wpick([(1, 1), (2, 1), (3, 1), (10, 1), (1000, 2), (2000, 1), (20000, 3), (100000, 2 if big_used < 2 else 0.2)] + ([(1000000, 0.15)] if tier == "thorough" and big_used == 0 else []))
         if n >= 100000:
             big_used += 1
-        rs = S.wpick([({"kind": "none", "pin": S.sub("pin", k)}, 3), ({"kind": "int", "seed": S.pick([0, 1, 42, S.sub("s", k) % 1000, S.sub("s", k)])}, 4), ({"kind": "gen", "gen": S.int(0, n_gens - 1)}, 4)])
-        ops.append({"op": "draw", "slot": S.int(0, n_slots - 1), "n": n, "rs": rs})
+        rs = S.wpick([({"kind": "none", "pin": S.sub("pin", k)}, 3), ({"kind": "int", "seed": S.pick([0, 1, 42, S.sub("s", k) % 1000, S.sub("s", k), 2**32 + S.sub("s", k) % 1000, 2**63 + 5]), "type": S.wpick([("int", 4), ("np.int64", 1), ("np.uint32", 0.5)])}, 4), ({"kind": "gen", "gen": S.int(0, n_gens - 1)}, 4)])
+        if rs["kind"] == "int" and rs["type"] != "int":
+            rs["seed"] = rs["seed"] % (2**31)
+        slot_i = S.int(0, n_slots - 1)
+        if rs["kind"] == "int" and slots[slot_i]["kind"] == "dist":
+            rs["seed"] = rs["seed"] % (2**32)  # scipy's legacy seeding of single distributions accepts 0 .. 2**32-1 only
+        ops.append({"op": "draw", "slot": slot_i, "n": n, "rs": rs})
         if S.chance(0.35):
             # a follow-up that makes a seeding relation observable
             prev = ops[-1]
@@ -107,7 +119,8 @@ def generate(prop, seed, tier):
                 ops.append(copy.deepcopy(prev))
             elif mode == "other_seed" and prev["rs"]["kind"] == "int":
                 o = copy.deepcopy(prev)
-                o["rs"]["seed"] = prev["rs"]["seed"] + 1 + S.int(0, 5)
+                big_ok = prev["rs"].get("type", "int") == "int" and slots[prev["slot"]]["kind"] != "dist"
+                o["rs"]["seed"] = prev["rs"]["seed"] + (S.pick([1, 2, 3, 2**32, 2**33, 2**32 * 5]) if big_ok else 1)
                 ops.append(o)
             elif mode == "same_gen" and prev["rs"]["kind"] == "gen":
                 ops.append(copy.deepcopy(prev))
@@ -125,9 +138,22 @@ def generate(prop, seed, tier):
 # --------------------------------------------------------------------------
 
 
+FIT_FAMILIES = {"dnvgl_hs_tz": ["Weibull", "LogNormal"], "omae_hs_tz": ["ExpWeibull", "LogNormal"], "dnvgl_hs_u": ["Weibull", "Weibull"], "omae_v_hs": ["ExpWeibull", "ExpWeibull"]}
+
+
 def build_slot(sl):
     from virocon import DependenceFunction, GlobalHierarchicalModel
 
+    if sl["kind"] == "fitted":
+        from sim import models
+
+        m, data, sem = models.build_predefined(sl["getter"], sl["letter"], sl["n"], sl["dseed"])
+        if sl.get("refit"):
+            desc, fit_desc, sem, tr = models.predefined(sl["getter"])
+            m.fit(models.dataset_for(sl["getter"], sl["letter"], sl["n"], sl["dseed"] + 1), fit_desc)
+        # describe it like a generated model so that the same oracles apply
+        sl["dims"] = [{"family": f, "cond_on": c} for f, c in zip(FIT_FAMILIES[sl["getter"]], m.conditional_on)]
+        return m
     if sl["kind"] == "dist":
         return fam_class(sl["family"])(**sl["params"])
     descs = []
@@ -212,7 +238,12 @@ def check_law_model(run, sl, model, X):
         # independence from every earlier coordinate: uniform within each of 5 quantile bins
         for j in range(i):
             order = np.argsort(X[:, j], kind="stable")
-            for b, idx in enumerate(np.array_split(order, 5)):
+            bins = list(np.array_split(order, 5))
+            if n >= 50000:
+                # the tails of the conditioning variable (where dependence functions are extrapolated)
+                k1, k5 = n // 100, n // 20
+                bins += [order[:k1], order[-k1:], order[:k5], order[-k5:]]
+            for b, idx in enumerate(bins):
                 db = _ks(U[idx, i])
                 run.count("dkw_comparisons")
                 if not db <= eps_dkw(len(idx)):
@@ -300,7 +331,8 @@ def _one_pass(scen, objs, which, run=None):
                 seams.pin_global(rs["pin"])
                 x = obj.draw_sample(op["n"])
             elif rs["kind"] == "int":
-                x = obj.draw_sample(op["n"], random_state=int(rs["seed"]))
+                seed = {"int": int, "np.int64": np.int64, "np.uint32": np.uint32}[rs.get("type", "int")](rs["seed"])
+                x = obj.draw_sample(op["n"], random_state=seed)
             else:
                 x = obj.draw_sample(op["n"], random_state=gens[rs["gen"]])
             out.append(np.asarray(x))
@@ -322,10 +354,17 @@ def execute(prop, scen):
 
 def _execute(prop, scen):
     run = core.Run(prop, scen)
-    sig_slots = [(s["kind"], s.get("family"), [(d["family"], d["cond_on"]) for d in s.get("dims", [])]) for s in scen["slots"]]
+    sig_slots = [(s["kind"], s.get("family"), s.get("getter"), [(d["family"], d["cond_on"]) for d in s.get("dims", [])] if s["kind"] == "model" else None) for s in scen["slots"]]
     run.signature = core.digest([sig_slots, [(o["op"], o.get("slot"), o.get("n"), (o.get("rs") or {}).get("kind"), o.get("dim")) for o in scen["ops"]]])
     with seams.recorded_warnings():
-        objs = [build_slot(s) for s in scen["slots"]]
+        try:
+            seams.pin_global(core.h64(scen["seed"], "build"))
+            objs = [build_slot(s) for s in scen["slots"]]
+        except RuntimeError as e:
+            if "Failed to fit" in str(e) or "too few intervals" in str(e):
+                run.inconclusive = f"workload: predefined model could not be fitted to the sub-sample ({str(e)[:50]})"
+                return run
+            raise
         A = _one_pass(scen, objs, "A")
         n_skews = sum(1 for o in scen["ops"] if o["op"] == "skew")
         if n_skews:
